@@ -174,7 +174,8 @@ class ProgGen(object):
 
     def __init__(self, rng, max_depth=4, max_nodes=40, value_depth=2, msg_styles=None, act_styles=None,
                  exc_pool=None, allow_remote=True, allow_tb=True, allow_typed=True, type_names=None,
-                 allow_cross=True, fail_p=0.3, remote_vias=("same", "thread"), allow_reenter=False, hostile=None, defer_p=0.0, early_finish_p=0.0, extra_styles=(), reseed_p=0.0, reserved_field_p=0.0, status_field_p=0.0):
+                 allow_cross=True, fail_p=0.3, remote_vias=("same", "thread"), allow_reenter=False, hostile=None, defer_p=0.0, early_finish_p=0.0, extra_styles=(), reseed_p=0.0, reserved_field_p=0.0, status_field_p=0.0, underscore_field_p=0.0):
+        self.underscore_field_p = underscore_field_p  # share of untyped field sets with a key that starts with an underscore (_id, _rev: document-store style names)
         self.reseed_p = reseed_p  # share of body slots that re-seed the global random module with a fixed seed (programs do that)
         self.reserved_field_p = reserved_field_p  # share of untyped field sets that also carry a key named like eliot's own metadata
         self.allow_reenter = allow_reenter
@@ -214,6 +215,8 @@ class ProgGen(object):
                 out[k] = self.hostile(rng)
             else:
                 out[k] = gen_value(rng, self.value_depth)
+        if not ident_only and not typed and self.underscore_field_p and rng.random() < self.underscore_field_p:
+            out[rng.choice(["_id", "_rev", "_private", "_"])] = rng.choice(["5f1d7c", 12, None, [1, 2]])
         if not ident_only and not typed and rng.random() < self.reserved_field_p:
             # a program may pass keyword fields named like eliot's own metadata; eliot's values must win
             out[rng.choice(["timestamp", "task_level", "task_uuid"])] = rng.choice(["x", 3, [7, 7], "11111111-2222-3333-4444-555555555555", None])
